@@ -261,7 +261,7 @@ func (p *Parser) validateNonce(nonce string) error {
 
 func (p *Parser) getAnchorUntil(from, until int64) int64 {
 	if from != 0 && until == 0 {
-		return from + int64(p.MaxDeltaSize)
+		return from + int64(p.MaxOperationTimeDelta)
 	}
 
 	return until
